@@ -4,16 +4,16 @@ package main
 // Every verdict is computed from the source currently in -repo; nothing in the repository is executed.
 
 import (
-	"path/filepath"
 	"encoding/json"
-	"time"
 	"flag"
 	"fmt"
 	"os"
+	"path/filepath"
 	"runtime/debug"
 	"sort"
 	"strconv"
 	"strings"
+	"time"
 )
 
 type overlayFlag map[string]string
@@ -29,9 +29,9 @@ func (o overlayFlag) Set(v string) error {
 }
 
 type propCheck struct {
-	meta propMeta
-	run  func(c *Ctx)
-	all  bool // needs the whole program in the thorough tier
+	meta     propMeta
+	run      func(c *Ctx)
+	all      bool         // needs the whole program in the thorough tier
 	thorough func(c *Ctx) // extra work of the thorough tier
 }
 
@@ -49,6 +49,8 @@ func main() {
 	list := flag.Bool("list", false, "list properties")
 	writeBase := flag.Bool("write-function-table", false, "record the functions of the current tree as the reviewed decomposition (tables/functions.json)")
 	normDump := flag.Bool("norm-dump", false, "print the files rewritten by the helper-inlining normalisation and exit")
+	mutgen := flag.Bool("mutgen", false, "development aid: print single-site syntactic mutants of the hand-written sources as JSON lines")
+	allProps := flag.Bool("allprops", false, "development aid: run every property on one load and print the failing rules as one JSON line")
 	inventory := flag.Bool("inventory", false, "print the whole-program reachability inventory as JSON (thorough tier helper)")
 	flag.BoolVar(&verbose, "v", false, "print every obligation")
 	ov := overlayFlag{}
@@ -109,6 +111,71 @@ func main() {
 		if v, err := strconv.Atoi(s); err == nil {
 			seed = v
 		}
+	}
+	if *mutgen {
+		runMutgen(*repo)
+		return
+	}
+	if *allProps {
+		// development aid (mutation sweeps): every property on one load; prints one JSON line {prop: [failing rules]|"undecided"}
+		overlay := map[string][]byte{}
+		for k, v := range ov {
+			b, err := os.ReadFile(v)
+			if err != nil {
+				fmt.Println(`{"error":"overlay"}`)
+				os.Exit(2)
+			}
+			overlay[k] = b
+		}
+		res := map[string]interface{}{}
+		func() {
+			defer func() {
+				if r := recover(); r != nil {
+					res["error"] = fmt.Sprint(r)
+				}
+			}()
+			w, err := loadWorld(*repo, overlay, false)
+			if err != nil {
+				res["error"] = "load: " + err.Error()
+				return
+			}
+			w, _ = normalizeWorld(w, *verif)
+			ids := []string{}
+			for id := range registry {
+				ids = append(ids, id)
+			}
+			sort.Strings(ids)
+			for _, id := range ids {
+				func() {
+					defer func() {
+						if r := recover(); r != nil {
+							res[id] = "panic: " + fmt.Sprint(r)
+						}
+					}()
+					c := newCtx(id, "quick", w)
+					registry[id].run(c)
+					c.checkMinima()
+					var failed []string
+					seen := map[string]bool{}
+					for _, o := range c.Obs {
+						if !o.OK && !seen[o.Rule] {
+							seen[o.Rule] = true
+							failed = append(failed, o.Rule)
+						}
+					}
+					sort.Strings(failed)
+					switch {
+					case len(failed) > 0:
+						res[id] = failed
+					case len(c.Undecided) > 0:
+						res[id] = "undecided"
+					}
+				}()
+			}
+		}()
+		b, _ := json.Marshal(res)
+		fmt.Println(string(b))
+		return
 	}
 	pc := registry[*prop]
 	if pc == nil {
